@@ -547,6 +547,7 @@ def check_peel(ctx, rule):
     rep, pdb = ctx.rep, ctx.pdb
     key, ret, out, sm = peel_summary(ctx)
     n = 0
+    folded_cases = []
     for k in range(53):
         # abstract input: bits above the k-th deck card are 0, that bit is 1, lower card bits and overflow bits unknown
         bits = []
@@ -570,10 +571,36 @@ def check_peel(ctx, rule):
             exp_r = [0] * 64
             exp_o = list(bits)
             what = "no card bit set"
+        imprecise = any(isinstance(b, tuple) and b[0] == "top" for b in r + o)
+        if imprecise and (r != exp_r or o != exp_o):
+            # arithmetic on the set (e.g. leading_zeros tricks) defeats the per-bit abstraction: decide this case by
+            # folding the summary over structured members of the abstract case instead (weaker: recorded in evidence)
+            import random
+            rnd = random.Random(ctx.rep.seed * 1000 + k)
+            lowmask = (1 << (51 - k)) - 1 if k < 52 else 0
+            lows = [0, lowmask, lowmask & 0x5555555555555555, lowmask & 0xAAAAAAAAAAAAAAAA] + [rnd.getrandbits(64) & lowmask for _ in range(6)]
+            highs = [0, 0xFFF << 52, 1 << 52, 1 << 63, 0xA5A << 52]
+            okr = oko = True
+            for lw in lows:
+                for hg in highs:
+                    val = hg | lw | ((1 << (51 - k)) if k < 52 else 0)
+                    gr = cval(ctx.fold(ret, {"s": val}))
+                    go = cval(ctx.fold(out, {"s": val}))
+                    er = (1 << (51 - k)) if k < 52 else 0
+                    okr = okr and gr == er
+                    oko = oko and go == (val & ~er)
+            rep.ob(rule, "return/%d" % k, okr, "peel when %s: returned value is not %s (decided by fold over %d structured sets)" % (what, "that card's bit" if k < 52 else "BLANK", len(lows) * len(highs)), pdb.where(key))
+            rep.ob(rule, "state/%d" % k, oko, "peel when %s: the set afterwards is not the set %s (fold over structured sets)" % (what, "minus that card" if k < 52 else "unchanged"), pdb.where(key))
+            folded_cases.append(k)
+            n += 1
+            continue
         rep.ob(rule, "return/%d" % k, r == exp_r, "peel when %s: returned value is not %s" % (what, "that card's bit" if k < 52 else "BLANK"), pdb.where(key))
         rep.ob(rule, "state/%d" % k, o == exp_o, "peel when %s: the set afterwards is not the set %s" % (what, "minus that card" if k < 52 else "unchanged"), pdb.where(key))
         n += 1
     rep.floor(rule, n, 53)
+    if folded_cases:
+        rep.note("%s: %d of 53 abstract cases were decided by folding over structured sets because the code does arithmetic on the set (per-bit abstraction imprecise)" % (rule, len(folded_cases)))
+        rep.extra["exhaustive"] = False
     rep.sample({"rule": rule, "abstract_cases": 53, "case": "bits above k zero, bit k one, lower bits and bits 52-63 symbolic"})
     return key
 
